@@ -234,7 +234,8 @@ impl<Octs: Octets> Debug for Message<Octs> {
             &self.common_header().msg_type(),
             &self.common_header().length()
         );
-        write!(f, "{:02x?}", &self.as_ref()[0..self.length() as usize])
+        let len = (self.length() as usize).min(self.as_ref().len());
+        write!(f, "{:02x?}", &self.as_ref()[0..len])
     }
 }
 
